@@ -1,5 +1,6 @@
 # self-validation battery (see runner.py): mutants must be reported under the named rule, neutral rewrites must stay silent
 MUTANTS = [
+    {'name': 'revert: pairs each non-empty part', 'revert': 'pairs each non-empty part', 'expect': '|ZIP-PAR|'},
     {'name': 'revert: rescales the metrical-position columns', 'revert': 'rescales the metrical-position columns', 'expect': 'RESCALE'},
     {'name': 'revert: passes only keywords its callees accept', 'revert': 'passes only keywords its callees accept', 'expect': 'F4d'},
     {'name': 'revert: unpacks the three-column', 'revert': 'unpacks the three-column', 'expect': 'F4b'},
@@ -13,6 +14,7 @@ NEUTRALS = [{'name': 'stable instead of mergesort', 'file': 'partitura/utils/mus
 
 # changes made by sub-agents that were given only the property text (see /verif/seeded/<id>/): each must stay reported
 SEEDED = [
+    {'name': 'seeded change C05-r3', 'seed': 'C05-r3', 'expect': '|BEAT-TYPE|'},
     {'name': 'seeded change C05-r2', 'seed': 'C05-r2', 'expect': '|F4a|'},
     {'name': 'seeded change C05', 'seed': 'C05', 'expect': '|RESCALE|'},
 ]
